@@ -51,6 +51,9 @@ func aliasGrid(anchors []int64) []*big.Int {
 		}
 	}
 	for _, a := range anchors {
+		for _, d := range []int64{-1, 0, 1} { // the anchor itself and its neighbours (bounds of validated integers)
+			add(big.NewInt(a + d))
+		}
 		for _, off := range aliasOffsets {
 			add(new(big.Int).Add(big.NewInt(a), off))
 		}
